@@ -703,6 +703,158 @@ impl Scenario for C03Scenario {
     }
 }
 
+/// C03 with a raw peer: a conforming peer other than rs-matter answers the exchanges a stack
+/// opens with it, using every combination of the optional protocol header fields (acknowledgement
+/// counter, protocol vendor id, both) - shapes rs-matter itself never puts on the wire but has to
+/// decode to the fields that were encoded.
+pub struct RawPeerShapes {
+    pub forge: bool,
+}
+
+impl Scenario for RawPeerShapes {
+    fn property(&self) -> &'static str {
+        "C03"
+    }
+    fn name(&self) -> &'static str {
+        if self.forge {
+            "raw-peer-header-shapes-and-forgeries"
+        } else {
+            "raw-peer-header-shapes"
+        }
+    }
+
+    fn run(&self, seed: u64) -> Outcome {
+        let knobs = C03Knobs { forge: self.forge, sched: self.forge, force_group: false };
+        let mut cfg = gen_cfg(seed, &knobs);
+        let n_nodes = cfg.workloads.len();
+        let a = tape::choose(n_nodes as u32) as usize;
+        let idx = cfg.planted.len();
+        cfg.planted.push(Planted {
+            kind: if tape::choose(2) == 1 { Kind::Pase } else { Kind::Case },
+            a,
+            b: RAW_NODE,
+            a_local_sid: 80,
+            b_local_sid: 90,
+            a_nodeid: 0x1111_0300,
+            b_nodeid: 0x3333_0300,
+            key_ab: gen_key(seed ^ 0xF1),
+            key_ba: gen_key(seed ^ 0xF2),
+        });
+        for k in 0..1 + tape::choose(3) {
+            // The two ends take turns; what the stack sends is reliable (the raw peer answers it)
+            let steps = 1 + tape::choose(5) as usize;
+            let script = (0..steps)
+                .map(|s| {
+                    let mut b = ((tape::biased(6, 400) as u8) << Step::LEN_SHIFT) | if s % 2 == 1 { Step::BY_RESPONDER | Step::UNRELIABLE } else { 0 };
+                    if s % 2 == 1 && tape::chance(300) {
+                        b |= Step::ACK_AFTER;
+                    }
+                    Step(b)
+                })
+                .collect();
+            cfg.workloads[a].push(vec![Workload {
+                id: 200 + k as u16,
+                planted: idx,
+                start_delay_ms: tape::biased(8, 400) * 29,
+                script,
+                final_ack: false,
+                group: false,
+            }]);
+        }
+        let forge = self.forge;
+        let drop_permille = cfg.net.drop_permille;
+        let mutate_permille = if forge { [150, 300, 600][tape::choose(3) as usize] } else { 0 };
+        let planted = cfg.planted.clone();
+        let app_log: Rc<RefCell<Vec<AppEv>>> = Rc::new(RefCell::new(Vec::new()));
+        let replies: Rc<RefCell<Vec<RawReply>>> = Rc::new(RefCell::new(Vec::new()));
+        let (al, rp) = (app_log.clone(), replies.clone());
+        let mut run = drive_with(seed, cfg, move |fired| {
+            Box::new(RawResponder {
+                inner: Box::new(Corruptor { n_nodes, mutate_permille, drop_permille, latency_us: 1_000, seen: Vec::new(), fired: fired.clone() }),
+                planted,
+                seed,
+                latency_us: 1_000,
+                ctrs: BTreeMap::new(),
+                given: BTreeMap::new(),
+                app_log: al,
+                replies: rp,
+                fired,
+            })
+        });
+        // The raw peer's own application events belong to the history
+        run.log.extend(app_log.borrow().iter().cloned());
+        run.log.sort_by_key(|e| e.time);
+        let mut out = Outcome::default();
+        common_counters(&run, &mut out);
+        check_c03(&run, &mut out);
+        check_raw_replies(&run, &replies.borrow(), &mut out);
+        out.sample = Some(sample_of(&run));
+        out
+    }
+}
+
+/// What the raw peer encoded the stack decoded: an acknowledgement carried by a message of the
+/// raw peer (whatever other optional header fields it has) ends the retransmissions of the
+/// acknowledged message once the stack took that message in.
+pub fn check_raw_replies(run: &MrpRun, replies: &[RawReply], out: &mut Outcome) {
+    for r in replies {
+        out.count(
+            match (r.vendor.is_some(), r.with_ack, r.standalone) {
+                (_, _, true) => "raw_replies_standalone_ack",
+                (true, true, _) => "raw_replies_vendor_and_ack",
+                (true, false, _) => "raw_replies_vendor_only",
+                (false, _, _) => "raw_replies_ack_only",
+            },
+            1,
+        );
+        let stack = run.cfg.planted[r.planted].a;
+        // The datagram on the tap, and when the stack's transport took it in (and accepted it)
+        let Some((id, _)) = run.tap.iter().find_map(|e| match e {
+            TapEvent::Send(s) if s.src == RAW_NODE && s.bytes == r.bytes && s.time >= r.time => Some((s.id, s.time)),
+            _ => None,
+        }) else {
+            continue;
+        };
+        let taken = run.tap.iter().enumerate().find_map(|(i, e)| match e {
+            TapEvent::Consume { id: cid, node, time, modified: false } if *cid == id && *node == stack => Some((i, *time)),
+            _ => None,
+        });
+        let Some((tap_idx, t_taken)) = taken else {
+            continue;
+        };
+        let verdict = run.events.iter().filter(|e| e.tap_pos == tap_idx + 1 && e.node == stack).find_map(|e| match &e.ev {
+            Event::Rx { verdict, .. } => Some(*verdict),
+            _ => None,
+        });
+        // The first copy of an authentic message the stack has never seen: not a duplicate, not
+        // an error (its exchange may be gone by now, though)
+        if matches!(verdict, Some(RxVerdict::Duplicate) | Some(RxVerdict::Error)) {
+            out.violate(
+                "decoded-differs-from-encoded",
+                format!(
+                    "node {stack} classified the first copy of an authentic message of the raw peer (acknowledging counter {:#x}: {}, vendor id {:x?}, stand-alone acknowledgement: {}) as {verdict:?} at t={t_taken}",
+                    r.acked, r.with_ack, r.vendor, r.standalone
+                ),
+            );
+        }
+        if !r.with_ack || !matches!(verdict, Some(RxVerdict::Processed { .. }) | Some(RxVerdict::StandaloneAck)) {
+            continue;
+        }
+        out.count("raw_acknowledgements_taken_in", 1);
+        if let Some(d) = run.dgrams.iter().find(|d| {
+            d.src == stack && d.src_inc != 0 && d.planted == Some(r.planted) && d.plain.as_ref().map(|p| p.ctr) == Some(r.acked) && d.time > t_taken
+        }) {
+            out.violate(
+                "decoded-differs-from-encoded",
+                format!(
+                    "node {stack} took in (t={t_taken}, verdict {verdict:?}) a message of the raw peer acknowledging counter {:#x} (vendor id {:x?}, stand-alone: {}), yet retransmitted that message at t={}: the acknowledgement counter it decoded is not the one that was encoded",
+                    r.acked, r.vendor, r.standalone, d.time
+                ),
+            );
+        }
+    }
+}
+
 pub fn defs() -> Vec<PropertyDef> {
     vec![PropertyDef {
         id: "C03",
@@ -718,12 +870,22 @@ pub fn defs() -> Vec<PropertyDef> {
                 weight: 6,
                 fault_free: false,
             },
+            Family {
+                scenario: Box::new(RawPeerShapes { forge: false }),
+                weight: 1,
+                fault_free: false,
+            },
+            Family {
+                scenario: Box::new(RawPeerShapes { forge: true }),
+                weight: 2,
+                fault_free: false,
+            },
         ],
-        rule: "each run = 2-3 real stacks, 1-2 planted PASE/CASE sessions per node pair (session ids coinciding across peers and directions in part of the runs), 1-5 scripted exchanges with payloads of 0 bytes to the maximum; every secured datagram is, with a per-run probability of 15-60 %, accompanied by one crafted variant (bit flip in plain header / body / tag, truncation, extension, transplanted session id or counter, header spliced on a foreign body, foreign datagram, reflection to the sender, redirection to a third node, forged source address), delivered before or after the genuine one; distinct = distinct trace hash; non-trivial = at least one application message received and one fault fired",
+        rule: "each run = 2-3 real stacks, 1-2 planted PASE/CASE sessions per node pair (session ids coinciding across peers and directions in part of the runs), 1-5 scripted exchanges with payloads of 0 bytes to the maximum; every secured datagram is, with a per-run probability of 15-60 %, accompanied by one crafted variant (bit flip in plain header / body / tag, truncation, extension, transplanted session id or counter, header spliced on a foreign body, foreign datagram, reflection to the sender, redirection to a third node, forged source address), delivered before or after the genuine one; in a third of the runs the nodes are members of one real fabric with group keys and exchange group data messages (source node id and destination group id in the header, multicast), which are forged the same way; families raw-peer-header-shapes(-and-forgeries): one stack additionally talks to a raw peer (harness-made, authentic under the session keys, standing for a conforming implementation other than rs-matter) which answers with stand-alone acknowledgements and with messages carrying an acknowledgement, a protocol vendor id, or both; distinct = distinct trace hash; non-trivial = at least one application message received and one fault fired",
         assumptions: vec![
             "harness (executor, network, tape, independent AES-CCM codec, oracles) is trusted",
             "the adversary can read, alter, misroute and inject datagrams but does not know session keys",
-            "sessions are planted through the public ReservedSession API; group sessions are not exercised (unicast PASE and CASE only)",
+            "sessions are planted through the public ReservedSession API; group sessions come from a real fabric with a group key set (Exchange::initiate_group)",
             "sampling, not enumeration: the single-bit flips cover every offset only statistically (counts in the evidence)",
         ],
         real: "rs-matter packet decode / encode (plain and protocol header, AES-CCM with the header as associated data, nonce from security flags, counter and source node id), session lookup by peer address + session id, receive-window update after successful decode, exchange dispatch, MRP",
